@@ -1,11 +1,15 @@
 #!/bin/bash
-# scripts/seeded_matrix.sh — run every property check against every seeded change (scratch copies) and print which detect it.
+# scripts/seeded_matrix.sh [dir...] — run every property check against every seeded change (scratch copies, 6 in parallel)
+# and print which checks detect it.  Details (first reasons per detecting check) go to $MATRIX_DETAIL (default /dev/null).
 cd /verif
 props="C01 C02 C03 C04 C05 C06 C07 C08 C09 C10 C11 C12 C13 C14 C15 C16 C17 C18 C19 C20"
-for d in seeded/*/; do
-  id=$(basename "$d")
-  own=${id:0:3}
-  out=$(LINES_MAX=0 scripts/mutant.sh "$d/patch.diff" $props 2>&1)
+dirs="$@"; [ -z "$dirs" ] && dirs=$(ls -d seeded/*/ mutants/seeded-like 2>/dev/null)
+one() {
+  d="$1"; id=$(basename "$d"); own=${id:0:3}
+  out=$(LINES_MAX=4 scripts/mutant.sh "$d/patch.diff" $props 2>&1)
   det=$(echo "$out" | grep "DETECTED" | sed 's/== \(C[0-9]*\):.*/\1/' | tr '\n' ' ')
   echo "$id own=$own detected_by: $det"
-done
+  if [ -n "${MATRIX_DETAIL:-}" ]; then { echo "##### $id"; echo "$out" | cut -c1-600; } >> "$MATRIX_DETAIL"; fi
+}
+export -f one; export props
+printf '%s\n' $dirs | xargs -P 6 -I{} bash -c 'one {}' | sort
